@@ -17,6 +17,7 @@ type ans struct {
 	Age    string `json:"age,omitempty"` // origin's own Age header ("" none)
 	Status int    `json:"status,omitempty"`
 	Size   int    `json:"size,omitempty"`
+	SMax   bool   `json:"s_maxage,omitempty"` // lifetime given as s-maxage (with a contradicting max-age)
 }
 
 // lifetime the lifetime the reference expects pike to compute (0 = not storable)
@@ -91,7 +92,11 @@ func replyOf(f *hx.Fetch, a ans) *hx.Reply {
 	}
 	switch a.Kind {
 	case "cacheable":
-		rep.Header = append(rep.Header, [2]string{"Cache-Control", "public, max-age=" + strconv.FormatInt(a.T, 10)})
+		if a.SMax {
+			rep.Header = append(rep.Header, [2]string{"Cache-Control", "max-age=1, s-maxage=" + strconv.FormatInt(a.T, 10)})
+		} else {
+			rep.Header = append(rep.Header, [2]string{"Cache-Control", "public, max-age=" + strconv.FormatInt(a.T, 10)})
+		}
 		if a.Age != "" {
 			rep.Header = append(rep.Header, [2]string{"Age", a.Age})
 		}
